@@ -124,7 +124,7 @@ func main() {
 		c.Finish()
 	}
 	c.Rule("stage A: every sequential interleaving of connection A (new, accept, tick, accept, close), connection B (new, accept, close; own number or A's number reused after A closed) " +
-		"and one reload (valid / refused / two valid) at the ReloadableOrchestrator API with recording downstream generations; named gate scripts G1 G2 G3 G7 (valid and refused reload) at the vhook points; " +
+		"and one reload (valid / refused / two valid) at the ReloadableOrchestrator API with recording downstream generations; named gate scripts G1 G2 G3 G7 at the vhook points and G8 G9 (a Close / Accept held inside the downstream sink while a reload arrives), each with a valid and a refused reload; " +
 		"free-running stress (2-4 connection goroutines with lowest-free number reuse, 1-6 reloads, perturbation plans) checked with porcupine; listener stage: real sockets with descriptor reuse; " +
 		"stage B: real agent with reloads under traffic and new configuration files (identical, label changed, field appended, invalid YAML, unknown field, keys / inputs / maxFields / number of outputs changed); " +
 		"non-trivial = a reload overlapped an open connection or a client number was reused; distinct = case name / outcome")
@@ -169,7 +169,7 @@ func main() {
 	c.JudgeRaces(anchors)
 	c.Require("sequential_interleavings", int64(nseq))
 	c.Require("reload_while_connection_open_or_number_reused", 100)
-	c.Require("gate_scripts_reached", 4)
+	c.Require("gate_scripts_reached", 8)
 	c.Require("stress_histories", 100)
 	c.Finish()
 }
